@@ -68,7 +68,7 @@ func (ex *Exec) mathBuiltin(st *State, short, method string, sig *types.Signatur
 		DeclareUF("dec_of_str", []*Sort{SBytes}, SInt)
 		DeclareUF("dec_str_ok", []*Sort{SBytes}, SBool)
 		if short == "math.LegacyMustNewDecFromStr" {
-			ex.nopanic(st, "decstr", App("dec_str_ok", s), call.Pos())
+			ex.nopanic(st, "decstr", App("dec_str_ok", s), posOfCall(call))
 			return one(App("dec_of_str", s))
 		}
 		e := Fresh("err_decstr", SErr)
@@ -141,16 +141,16 @@ func (ex *Exec) mathBuiltin(st *State, short, method string, sig *types.Signatur
 		case "MulRaw":
 			return one(Mul(r, T(args[0])))
 		case "Quo", "QuoRaw":
-			ex.nopanic(st, "divzero", Neq(T(args[0]), IntLit(0)), call.Pos())
+			ex.nopanic(st, "divzero", Neq(T(args[0]), IntLit(0)), posOfCall(call))
 			return one(truncDiv(r, T(args[0])))
 		case "Int64":
 			lo, _ := new(big.Int).SetString("-9223372036854775808", 10)
 			hi, _ := new(big.Int).SetString("9223372036854775807", 10)
-			ex.nopanic(st, "int64-range", And(Le(BigLit(lo), r), Le(r, BigLit(hi))), call.Pos())
+			ex.nopanic(st, "int64-range", And(Le(BigLit(lo), r), Le(r, BigLit(hi))), posOfCall(call))
 			return one(r)
 		case "Uint64":
 			hi, _ := new(big.Int).SetString("18446744073709551615", 10)
-			ex.nopanic(st, "uint64-range", And(Le(IntLit(0), r), Le(r, BigLit(hi))), call.Pos())
+			ex.nopanic(st, "uint64-range", And(Le(IntLit(0), r), Le(r, BigLit(hi))), posOfCall(call))
 			return one(r)
 		case "IsInt64":
 			lo, _ := new(big.Int).SetString("-9223372036854775808", 10)
@@ -170,13 +170,13 @@ func (ex *Exec) mathBuiltin(st *State, short, method string, sig *types.Signatur
 		case "MulInt", "MulInt64":
 			return one(Mul(r, T(args[0])))
 		case "Quo":
-			ex.nopanic(st, "divzero", Neq(T(args[0]), IntLit(0)), call.Pos())
+			ex.nopanic(st, "divzero", Neq(T(args[0]), IntLit(0)), posOfCall(call))
 			return one(bankers(truncDiv(Mul(Mul(r, decOne), decOne), T(args[0])), decOne))
 		case "QuoTruncate":
-			ex.nopanic(st, "divzero", Neq(T(args[0]), IntLit(0)), call.Pos())
+			ex.nopanic(st, "divzero", Neq(T(args[0]), IntLit(0)), posOfCall(call))
 			return one(truncDiv(truncDiv(Mul(Mul(r, decOne), decOne), T(args[0])), decOne))
 		case "QuoInt", "QuoInt64":
-			ex.nopanic(st, "divzero", Neq(T(args[0]), IntLit(0)), call.Pos())
+			ex.nopanic(st, "divzero", Neq(T(args[0]), IntLit(0)), posOfCall(call))
 			return one(truncDiv(r, T(args[0])))
 		case "TruncateInt", "TruncateInt64":
 			return one(truncDiv(r, decOne))
